@@ -25,7 +25,7 @@ RULE = ('Valid documents of every selectable map, envelope skeletons and raw str
         'terminators, over-long segments, byte flips, delimiters dropped into data, damaged ISA, non-ASCII characters, letters or '
         'digits as delimiters, a registered but unloadable map) plus the envelope faults of '
         'C04, then run through one of three entry points under a chunk plan, an EOF offset (sampled; for documents <= 4 KiB every 50th run of the thorough tier (<= 1.2 KiB, every 500th, in the '
-        'quick tier) sweeps *every* offset), one of the 8 sink subsets and a charset. distinct_nontrivial = distinct '
+        'quick tier) is a crash-point sweep: every offset up to 400 characters, beyond that the whole ISA, every offset next to a segment terminator and an even sample, at most ~700 offsets), one of the 8 sink subsets and a charset. distinct_nontrivial = distinct '
         '(entry point, sink subset, sorted fault kinds, outcome class) keys.')
 ASSUMPTIONS = [
     'documented outcomes: True; False; X12Error iff the first 106 characters are not a supported ISA header or a later ISA '
@@ -420,7 +420,21 @@ def execute(case):
         total = core.Outcome()
         n = len(case['text'])
         h = []
-        for eof in range(n + 1):
+        offsets = list(range(n + 1))
+        if n > 400:
+            # a bounded sweep (one run must stay far below the wall cap): every offset next to a segment terminator, the
+            # whole ISA, and an even sample of the rest
+            t = case['text']
+            term = t[105] if n > 105 else '~'
+            near = set(range(0, min(n, 110)))
+            for k, ch in enumerate(t):
+                if ch == term:
+                    near.update((k - 1, k, k + 1, k + 2))
+            stride = max(1, n // 250)
+            offsets = sorted(x for x in (near | set(range(0, n + 1, stride)) | {n}) if 0 <= x <= n)
+            if len(offsets) > 700:
+                offsets = offsets[::(len(offsets) // 700) + 1] + [n]
+        for eof in offsets:
             o = execute(dict(case, eof_sweep=False, eof=eof))
             h.append(o.digest)
             total.cover |= o.cover
